@@ -201,6 +201,9 @@ func (s *TFIDFSearcher) Search(query string, limit int) []TFIDFResult {
 	})
 
 	// Apply limit
+	if limit < 0 {
+		limit = 0
+	}
 	if len(results) > limit {
 		results = results[:limit]
 	}
